@@ -33,7 +33,8 @@ CFG = {
                   "D1-D4) are terminal specific and outside the judged vocabulary. Model tied to the source by Gen/TermModes.lean (dispatch through "
                   "the regenerated tables) and by the C05 correspondence stream (snapshot after every op, incl. a slice of the C06 sequences); "
                   "the reference is additionally evaluated as oracle on the IMPLEMENTATION after every op of the bounded-exhaustive and random "
-                  "histories (driver C06, independent of the transcribed functions). Spec adjustments vs Appendix A (accept-sets added): DECRC "
+                  "histories (driver C06, independent of the transcribed functions; since round 2 through tokOfX, the random generator appends "
+                  "1-3 further parameters to every fifth one-parameter function). Spec adjustments vs Appendix A (accept-sets added): DECRC "
                   "may restore the pending-wrap flag; ?1049h may clear with the current background.",
     "technique": "Lean 4 proof (refinement of an abstract reference terminal) + oracle evaluation on the real code",
     "timeout": 2400,
